@@ -1,5 +1,5 @@
-(* blankLineSplitter (RS = ""): closed form (no slice panics), and stability of the RECORDS
-   (the RT side channel is not stable: Properties/C07.v, blank_RT_refuted). *)
+(* blankLineSplitter (RS = ""): closed form (no slice panics), stability of ($0, RT), and
+   the reconstruction  leading newlines ++ concat (record ++ RT) = input. *)
 From Verif Require Import Lib.Base Model.Scanner Model.Splitters Proofs.Scanner Proofs.Splitters.
 
 Definition is_nl (c : Z) : bool := (c =? 10) || (c =? 13).
@@ -110,6 +110,40 @@ Proof.
       * exact (R H).
 Qed.
 
+(* a blank line found strictly inside the text stays exactly what it is *)
+Lemma skip_nl_app_lt d d' : skip_nl d < zlen d -> skip_nl (d ++ d') = skip_nl d.
+Proof.
+  induction d as [|c x IH]; [cbn; lia|].
+  cbn [app skip_nl]. rewrite zlen_cons. destruct ((c =? 10) || (c =? 13)); [|reflexivity].
+  intros H. rewrite IH by lia. reflexivity.
+Qed.
+
+Lemma find_blank_app_lt l d' : forall i en i', find_blank l i = Some (en, i') ->
+  i' < i + zlen l -> find_blank (l ++ d') i = Some (en, i').
+Proof.
+  induction l as [|c l' IH]; intros i en i' H Hlt; [discriminate|].
+  cbn [find_blank] in H. cbn [app find_blank]. rewrite zlen_cons in Hlt.
+  assert (R : find_blank l' (i + 1) = Some (en, i') -> find_blank (l' ++ d') (i + 1) = Some (en, i')).
+  { intros H'. apply IH; [exact H'|lia]. }
+  destruct (c =? 10); [|exact (R H)].
+  destruct l' as [|c1 l2]; [discriminate|].
+  cbn [app]. destruct (c1 =? 10) eqn:E1.
+  - injection H as <- <-. rewrite !zlen_cons in Hlt. rewrite skip_nl_app_lt by lia. reflexivity.
+  - destruct l2 as [|c2 l3].
+    + cbn [find_blank] in H. rewrite E1 in H. discriminate.
+    + cbn [app]. destruct ((c1 =? 13) && (c2 =? 10)).
+      * injection H as <- <-. rewrite !zlen_cons in Hlt. rewrite skip_nl_app_lt by lia. reflexivity.
+      * exact (R H).
+Qed.
+
+Lemma skip_nl_all d : zlen d <= skip_nl d -> Forall (fun c => is_nl c = true) d.
+Proof.
+  induction d as [|c x IH]; [constructor|].
+  cbn [skip_nl]. rewrite zlen_cons. destruct ((c =? 10) || (c =? 13)) eqn:E.
+  - intros H. constructor; [exact E|]. apply IH. lia.
+  - pose proof (zlen_nonneg x). lia.
+Qed.
+
 (* ---------- closed form of blankLineSplitter.scan ---------- *)
 
 Definition blank_pure (d : bytes) (e : bool) : raw :=
@@ -118,11 +152,12 @@ Definition blank_pure (d : bytes) (e : bool) : raw :=
   if zlen d <=? i then (i, None, None) else
   match find_blank (zdrop i d) i with
   | Some (en, i') =>
+      if (zlen d <=? i') && negb e then (0, None, None) else
       (i', Some (strip_last 13 (ztake (en - i) (zdrop i d))), Some (ztake (i' - en) (zdrop en d)))
   | None =>
       if e then
         let tok := strip_last 13 (strip_last 10 (zdrop i d)) in
-        (zlen d, Some tok, Some (zdrop (zlen tok) d))
+        (zlen d, Some tok, Some (zdrop (i + zlen tok) d))
       else (0, None, None)
   end.
 
@@ -134,6 +169,7 @@ Proof.
   destruct (zlen d <=? skip_nl d) eqn:Hall; [reflexivity|]. apply Z.leb_gt in Hall.
   destruct (find_blank (zdrop (skip_nl d) d) (skip_nl d)) as [[en i']|] eqn:Hf.
   - apply find_blank_bounds in Hf. rewrite zlen_zdrop in Hf by lia.
+    destruct ((zlen d <=? i') && negb e); [reflexivity|].
     rewrite slice_ok by lia. cbn [rbind]. rewrite slice_ok by lia. cbn [rbind].
     unfold drop_cr. rewrite drop_last_ok. reflexivity.
   - destruct e; [|reflexivity].
@@ -141,15 +177,192 @@ Proof.
     rewrite ztake_all by (rewrite zlen_zdrop by lia; lia).
     unfold drop_lf, drop_cr. rewrite drop_last_ok. cbn [rbind]. rewrite drop_last_ok. cbn [rbind].
     set (tok := strip_last 13 (strip_last 10 (zdrop (skip_nl d) d))).
-    assert (zlen tok <= zlen d).
+    assert (skip_nl d + zlen tok <= zlen d).
     { unfold tok. pose proof (zlen_strip_last 13 (strip_last 10 (zdrop (skip_nl d) d))).
       pose proof (zlen_strip_last 10 (zdrop (skip_nl d) d)). rewrite zlen_zdrop in * by lia. lia. }
-    rewrite slice_ok by (try apply zlen_nonneg; lia). cbn [rbind].
-    rewrite ztake_all by (rewrite zlen_zdrop by (split; [apply zlen_nonneg|lia]); lia).
+    pose proof (zlen_nonneg tok).
+    rewrite slice_ok by lia. cbn [rbind].
+    rewrite ztake_all by (rewrite zlen_zdrop by lia; lia).
     reflexivity.
 Qed.
 
-(* RS = "" observed without RT *)
+(* RS = "" as goawk sees it: tokens ($0, RT); RT default "" is always overwritten *)
+Definition blank_full : splitfn unit record := to_split [] blank_scan.
+
+Definition full_of (st : unit) (r : raw) : sres unit record :=
+  match r with
+  | (adv, tok, rtw) => SOk adv (option_map (fun t => (t, match rtw with Some r => r | None => [] end)) tok) st
+  end.
+
+Lemma blank_full_closed st d e : blank_full st d e = full_of st (blank_pure d e).
+Proof.
+  unfold blank_full, to_split. rewrite blank_scan_closed.
+  destruct (blank_pure d e) as [[adv tok] rtw]. reflexivity.
+Qed.
+
+Notation fshift := (shift unit record).
+
+(* at EOF a leading newline character is passed over *)
+Lemma blank_full_nl st c x : is_nl c = true -> blank_full st (c :: x) true = fshift 1 (blank_full st x true).
+Proof.
+  intros Hc. set (e := true). rewrite !blank_full_closed. unfold blank_pure.
+  cbn [nilb skip_nl]. unfold is_nl in Hc. rewrite Hc. rewrite andb_false_r.
+  replace (negb e) with false by reflexivity.
+  pose proof (skip_nl_bounds x) as Hi. rewrite zlen_cons.
+  destruct (e && nilb x) eqn:Hex.
+  - apply andb_true_iff in Hex as [_ Hx]. apply nilb_true in Hx. subst x.
+    cbn [skip_nl]. rewrite zlen_nil. reflexivity.
+  - replace (1 + zlen x <=? 1 + skip_nl x) with (zlen x <=? skip_nl x)
+      by (destruct (zlen x <=? skip_nl x) eqn:E; symmetry; [apply Z.leb_le; apply Z.leb_le in E; lia|apply Z.leb_gt; apply Z.leb_gt in E; lia]).
+    destruct (zlen x <=? skip_nl x) eqn:Hall; [reflexivity|]. apply Z.leb_gt in Hall.
+    rewrite zdrop_cons by lia.
+    replace (1 + skip_nl x) with (skip_nl x + 1) by lia. rewrite find_blank_shift.
+    destruct (find_blank (zdrop (skip_nl x) x) (skip_nl x)) as [[en i']|] eqn:Hf; cbn [shift2].
+    + apply find_blank_bounds in Hf. rewrite !andb_false_r.
+      cbn [full_of option_map shift].
+      replace (i' + 1 - (en + 1)) with (i' - en) by lia.
+      replace (i' + 1) with (1 + i') by lia.
+      replace (en + 1 - (skip_nl x + 1)) with (en - skip_nl x) by lia.
+      replace (en + 1) with (1 + en) by lia. rewrite zdrop_cons by lia. reflexivity.
+    + subst e. cbn [full_of option_map shift].
+      set (tok := strip_last 13 (strip_last 10 (zdrop (skip_nl x) x))). pose proof (zlen_nonneg tok).
+      replace (skip_nl x + 1 + zlen tok) with (1 + (skip_nl x + zlen tok)) by lia.
+      rewrite zdrop_cons by lia. reflexivity.
+Qed.
+
+Lemma fshift_shift a b r : fshift a (fshift b r) = fshift (a + b) r.
+Proof. destruct r; [|reflexivity]. cbn [shift]. f_equal. lia. Qed.
+
+Lemma blank_full_skips st p : Forall (fun c => is_nl c = true) p -> skips unit record blank_full st p.
+Proof.
+  induction 1 as [|c p Hc Hp IH]; [apply skips_nil|].
+  intros x. cbn [app]. rewrite blank_full_nl by exact Hc. rewrite IH, fshift_shift.
+  rewrite zlen_cons. reflexivity.
+Qed.
+
+Ltac wb_none := eexists _, _, _; split; [reflexivity|]; split; [lia|intros H; exfalso; apply H; reflexivity].
+Ltac wb_some := eexists _, _, _; split; [reflexivity|]; split; [lia|intros _; lia].
+
+Lemma blank_full_wb : wb unit record blank_full.
+Proof.
+  split.
+  - intros st d e. rewrite blank_full_closed. unfold blank_pure.
+    pose proof (skip_nl_bounds d) as Hi.
+    destruct (e && nilb d); [wb_none|].
+    destruct (zlen d <=? skip_nl d) eqn:Hall; [wb_none|].
+    apply Z.leb_gt in Hall.
+    destruct (find_blank (zdrop (skip_nl d) d) (skip_nl d)) as [[en i']|] eqn:Hf.
+    + apply find_blank_bounds in Hf. rewrite zlen_zdrop in Hf by lia.
+      destruct ((zlen d <=? i') && negb e); [wb_none|wb_some].
+    + destruct e; [wb_some|wb_none].
+  - intros st. rewrite blank_full_closed. reflexivity.
+Qed.
+
+(* a record decided before EOF is decided identically, RT included, on any extension *)
+Lemma blank_full_tok : forall d st adv t st', blank_full st d false = SOk adv (Some t) st' ->
+  forall d', blank_full st (d ++ d') true = SOk adv (Some t) st'.
+Proof.
+  intros d st adv t st' Hs d'. rewrite blank_full_closed in Hs. rewrite blank_full_closed.
+  unfold blank_pure in *. cbn [andb negb] in Hs.
+  pose proof (skip_nl_bounds d) as Hi.
+  destruct (zlen d <=? skip_nl d) eqn:Hall; [discriminate|]. apply Z.leb_gt in Hall.
+  destruct (find_blank (zdrop (skip_nl d) d) (skip_nl d)) as [[en i']|] eqn:Hf; [|discriminate].
+  rewrite andb_true_r in Hs.
+  destruct (zlen d <=? i') eqn:Htouch; [discriminate|]. apply Z.leb_gt in Htouch.
+  cbn [full_of option_map] in Hs. injection Hs as <- <- <-.
+  assert (Hnn : nilb (d ++ d') = false) by (destruct d; [cbn in Hall; lia|reflexivity]).
+  rewrite Hnn. cbn [andb negb]. rewrite skip_nl_app_lt by exact Hall.
+  rewrite zlen_app. pose proof (zlen_nonneg d').
+  replace (zlen d + zlen d' <=? skip_nl d) with false by (symmetry; apply Z.leb_gt; lia).
+  rewrite zdrop_app_le by lia.
+  rewrite (find_blank_app_lt _ d' _ _ _ Hf) by (rewrite zlen_zdrop by lia; lia).
+  apply find_blank_bounds in Hf. rewrite zlen_zdrop in Hf by lia.
+  rewrite andb_false_r.
+  cbn [full_of option_map].
+  rewrite (ztake_app_le (en - skip_nl d)) by (rewrite zlen_zdrop by lia; lia).
+  rewrite (zdrop_app_le en) by lia.
+  rewrite (ztake_app_le (i' - en)) by (rewrite zlen_zdrop by lia; lia).
+  reflexivity.
+Qed.
+
+Lemma blank_full_more : forall d st adv st', blank_full st d false = SOk adv None st' ->
+  forall d', blank_full st (d ++ d') true = fshift adv (blank_full st' (zdrop adv d ++ d') true).
+Proof.
+  intros d st adv st' Hs d'. rewrite blank_full_closed in Hs.
+  unfold blank_pure in Hs. cbn [andb negb] in Hs.
+  pose proof (skip_nl_bounds d) as Hi.
+  destruct (zlen d <=? skip_nl d) eqn:Hall.
+  - apply Z.leb_le in Hall. cbn [full_of option_map] in Hs. injection Hs as <- <-.
+    replace (skip_nl d) with (zlen d) by lia.
+    rewrite (blank_full_skips st d (skip_nl_all d Hall)).
+    rewrite zdrop_all by lia. reflexivity.
+  - destruct (find_blank (zdrop (skip_nl d) d) (skip_nl d)) as [[en i']|] eqn:Hf.
+    + rewrite andb_true_r in Hs. destruct (zlen d <=? i'); [|discriminate].
+      cbn [full_of option_map] in Hs. injection Hs as <- <-. rewrite shift_0, zdrop_0. reflexivity.
+    + cbn [full_of option_map] in Hs. injection Hs as <- <-. rewrite shift_0, zdrop_0. reflexivity.
+Qed.
+
+Theorem blank_full_stable : stable unit record blank_full.
+Proof.
+  split; [exact blank_full_wb| |].
+  - intros st d adv t st' Hs d'. exists 0. split; [lia|]. split.
+    + rewrite Z.add_0_r. exact (blank_full_tok d st adv t st' Hs d').
+    + replace (ztake 0 (zdrop adv (d ++ d'))) with (@nil Z) by reflexivity. apply skips_nil.
+  - intros st d adv st' Hs d'. exact (blank_full_more d st adv st' Hs d').
+Qed.
+
+(* ---------- observing tokens through a function preserves everything ---------- *)
+
+Section StableMap.
+  Variables St Tok1 Tok2 : Type.
+  Variable g : Tok1 -> Tok2.
+  Variable split1 : splitfn St Tok1.
+  Variable split2 : splitfn St Tok2.
+  Hypothesis split_map : forall st d e, split2 st d e = map_sres St Tok1 Tok2 g (split1 st d e).
+
+  Lemma map_shift k r : map_sres St Tok1 Tok2 g (shift St Tok1 k r) = shift St Tok2 k (map_sres St Tok1 Tok2 g r).
+  Proof. destruct r; reflexivity. Qed.
+
+  Lemma wb_map : wb St Tok1 split1 -> wb St Tok2 split2.
+  Proof.
+    intros W. split.
+    - intros st d e. destruct (wb_ok _ _ _ W st d e) as (adv & tok & st' & Hs & Hb & Hp).
+      rewrite split_map, Hs. cbn [map_sres]. eexists _, _, _. split; [reflexivity|]. split; [exact Hb|].
+      intros Ht. apply Hp. destruct tok; [discriminate|]. exfalso; apply Ht; reflexivity.
+    - intros st. rewrite split_map, (wb_empty _ _ _ W). reflexivity.
+  Qed.
+
+  Lemma skips_map st p : skips St Tok1 split1 st p -> skips St Tok2 split2 st p.
+  Proof. intros H x. rewrite !split_map, H, map_shift. reflexivity. Qed.
+
+  Lemma stable_map : stable St Tok1 split1 -> stable St Tok2 split2.
+  Proof.
+    intros S. split; [exact (wb_map (st_wb _ _ _ S))| |].
+    - intros st d adv t st' Hs d'. rewrite split_map in Hs.
+      destruct (split1 st d false) as [a tok s|] eqn:E1; [|discriminate].
+      cbn [map_sres] in Hs. destruct tok as [t1|]; [|discriminate]. cbn [option_map] in Hs.
+      injection Hs as <- <- <-.
+      destruct (st_tok _ _ _ S _ _ _ _ _ E1 d') as (k & Hk & H1 & H2).
+      exists k. split; [exact Hk|]. split; [rewrite split_map, H1; reflexivity|exact (skips_map _ _ H2)].
+    - intros st d adv st' Hs d'. rewrite split_map in Hs.
+      destruct (split1 st d false) as [a tok s|] eqn:E1; [|discriminate].
+      cbn [map_sres] in Hs. destruct tok as [t1|]; [discriminate|]. cbn [option_map] in Hs.
+      injection Hs as <- <-.
+      rewrite !split_map, (st_more _ _ _ S _ _ _ _ E1 d'), map_shift. reflexivity.
+  Qed.
+End StableMap.
+
+(* the records goawk delivers (with RT) project onto the RT-less observation *)
+Lemma to_split_rec_map rs f : forall st d e,
+  to_split_rec f st d e = map_sres unit record bytes fst (to_split rs f st d e).
+Proof.
+  intros st d e. unfold to_split_rec, to_split.
+  destruct (f d e) as [[[adv tok] rtw]| | |]; try reflexivity.
+  destruct tok; reflexivity.
+Qed.
+
+(* ---------- RS = "" observed without RT ---------- *)
+
 Definition blank_rec : splitfn unit bytes := to_split_rec blank_scan.
 
 Definition rec_of (st : unit) (r : raw) : sres unit bytes :=
@@ -161,143 +374,34 @@ Proof.
   destruct (blank_pure d e) as [[adv tok] rt]. reflexivity.
 Qed.
 
-Notation bshift := (shift unit bytes).
-
-(* a leading newline character is passed over *)
-Lemma blank_rec_nl st c x : is_nl c = true -> blank_rec st (c :: x) true = bshift 1 (blank_rec st x true).
-Proof.
-  intros Hc. set (e := true). rewrite !blank_rec_closed. unfold blank_pure.
-  cbn [nilb skip_nl]. unfold is_nl in Hc. rewrite Hc. rewrite andb_false_r.
-  pose proof (skip_nl_bounds x) as Hi. rewrite zlen_cons.
-  destruct (e && nilb x) eqn:Hex.
-  - apply andb_true_iff in Hex as [-> Hx]. apply nilb_true in Hx. subst x.
-    cbn [skip_nl]. rewrite zlen_nil. reflexivity.
-  - replace (1 + zlen x <=? 1 + skip_nl x) with (zlen x <=? skip_nl x)
-      by (destruct (zlen x <=? skip_nl x) eqn:E; symmetry; [apply Z.leb_le; apply Z.leb_le in E; lia|apply Z.leb_gt; apply Z.leb_gt in E; lia]).
-    destruct (zlen x <=? skip_nl x) eqn:Hall; [reflexivity|]. apply Z.leb_gt in Hall.
-    rewrite zdrop_cons by lia.
-    replace (1 + skip_nl x) with (skip_nl x + 1) by lia. rewrite find_blank_shift.
-    destruct (find_blank (zdrop (skip_nl x) x) (skip_nl x)) as [[en i']|] eqn:Hf; cbn [shift2].
-    + cbn [rec_of shift]. f_equal; [lia|]. f_equal. f_equal. f_equal. lia.
-    + subst e. cbn [rec_of shift]. f_equal.
-Qed.
-
-Lemma bshift_shift a b r : bshift a (bshift b r) = bshift (a + b) r.
-Proof. destruct r; [|reflexivity]. cbn [shift]. f_equal. lia. Qed.
+Lemma blank_rec_wb : wb unit bytes blank_rec.
+Proof. exact (wb_map unit record bytes fst blank_full blank_rec (to_split_rec_map [] blank_scan) blank_full_wb). Qed.
 
 Lemma blank_rec_skips st p : Forall (fun c => is_nl c = true) p -> skips unit bytes blank_rec st p.
 Proof.
-  induction 1 as [|c p Hc Hp IH]; [apply skips_nil|].
-  intros x. cbn [app]. rewrite blank_rec_nl by exact Hc. rewrite IH, bshift_shift.
-  rewrite zlen_cons. reflexivity.
-Qed.
-
-(* data that starts with a record byte *)
-Lemma blank_rec_head st c x e : is_nl c = false ->
-  blank_rec st (c :: x) e =
-    match find_blank (c :: x) 0 with
-    | Some (en, i') => SOk i' (Some (strip_last 13 (ztake en (c :: x)))) st
-    | None => if e then SOk (zlen (c :: x)) (Some (strip_last 13 (strip_last 10 (c :: x)))) st
-              else SOk 0 None st
-    end.
-Proof.
-  intros Hc. rewrite blank_rec_closed. unfold blank_pure.
-  cbn [nilb skip_nl]. unfold is_nl in Hc. rewrite Hc. rewrite andb_false_r.
-  rewrite zlen_cons. pose proof (zlen_nonneg x).
-  replace (1 + zlen x <=? 0) with false by (symmetry; apply Z.leb_gt; lia).
-  rewrite zdrop_0. destruct (find_blank (c :: x) 0) as [[en i']|].
-  - cbn [rec_of]. rewrite Z.sub_0_r. reflexivity.
-  - destruct e; reflexivity.
-Qed.
-
-Lemma skip_nl_app_lt d d' : skip_nl d < zlen d -> skip_nl (d ++ d') = skip_nl d.
-Proof.
-  induction d as [|c x IH]; [cbn; lia|].
-  cbn [app skip_nl]. rewrite zlen_cons. destruct ((c =? 10) || (c =? 13)); [|reflexivity].
-  intros H. rewrite IH by lia. reflexivity.
-Qed.
-
-Lemma skip_nl_all d : zlen d <= skip_nl d -> Forall (fun c => is_nl c = true) d.
-Proof.
-  induction d as [|c x IH]; [constructor|].
-  cbn [skip_nl]. rewrite zlen_cons. destruct ((c =? 10) || (c =? 13)) eqn:E.
-  - intros H. constructor; [exact E|]. apply IH. lia.
-  - pose proof (zlen_nonneg x). lia.
-Qed.
-
-Lemma blank_rec_wb : wb unit bytes blank_rec.
-Proof.
-  split.
-  - intros st d e. rewrite blank_rec_closed. unfold blank_pure.
-    pose proof (skip_nl_bounds d) as Hi.
-    destruct (e && nilb d); [eexists _, _, _; split; [reflexivity|]; split; [lia|congruence]|].
-    destruct (zlen d <=? skip_nl d) eqn:Hall;
-      [eexists _, _, _; split; [reflexivity|]; split; [lia|congruence]|].
-    apply Z.leb_gt in Hall.
-    destruct (find_blank (zdrop (skip_nl d) d) (skip_nl d)) as [[en i']|] eqn:Hf.
-    + apply find_blank_bounds in Hf. rewrite zlen_zdrop in Hf by lia.
-      eexists _, _, _. split; [reflexivity|]. split; [lia|]. intros _; lia.
-    + destruct e; eexists _, _, _; (split; [reflexivity|]); (split; [lia|]); [intros _; lia|congruence].
-  - intros st. rewrite blank_rec_closed. reflexivity.
-Qed.
-
-Lemma blank_rec_tok : forall d st adv t st', blank_rec st d false = SOk adv (Some t) st' ->
-  forall d', exists k, 0 <= k /\
-    blank_rec st (d ++ d') true = SOk (adv + k) (Some t) st' /\
-    skips unit bytes blank_rec st' (ztake k (zdrop adv (d ++ d'))).
-Proof.
-  intros d st adv t st' Hs d'. rewrite blank_rec_closed in Hs. rewrite blank_rec_closed.
-  unfold blank_pure in *. cbn [andb] in Hs.
-  pose proof (skip_nl_bounds d) as Hi.
-  destruct (zlen d <=? skip_nl d) eqn:Hall; [discriminate|]. apply Z.leb_gt in Hall.
-  destruct (find_blank (zdrop (skip_nl d) d) (skip_nl d)) as [[en i']|] eqn:Hf; [|discriminate].
-  cbn [rec_of] in Hs. injection Hs as <- <- <-.
-  assert (Hnn : nilb (d ++ d') = false) by (destruct d; [cbn in Hall; lia|reflexivity]).
-  rewrite Hnn. cbn [andb]. rewrite skip_nl_app_lt by exact Hall.
-  rewrite zlen_app. pose proof (zlen_nonneg d').
-  replace (zlen d + zlen d' <=? skip_nl d) with false by (symmetry; apply Z.leb_gt; lia).
-  rewrite zdrop_app_le by lia.
-  destruct (find_blank_app _ d' _ _ _ Hf) as (k & Hk & H1 & H2). rewrite H1.
-  apply find_blank_bounds in Hf. rewrite zlen_zdrop in Hf by lia.
-  exists k. split; [exact Hk|]. cbn [rec_of]. split.
-  - rewrite ztake_app_le by (rewrite zlen_zdrop by lia; lia). reflexivity.
-  - apply blank_rec_skips.
-    replace (zdrop i' (d ++ d')) with (zdrop (skip_nl d + (i' - skip_nl d)) (d ++ d')) by (f_equal; lia).
-    rewrite zdrop_zdrop by lia. rewrite zdrop_app_le by lia. exact H2.
-Qed.
-
-Lemma blank_rec_more : forall d st adv st', blank_rec st d false = SOk adv None st' ->
-  forall d', blank_rec st (d ++ d') true = bshift adv (blank_rec st' (zdrop adv d ++ d') true).
-Proof.
-  intros d st adv st' Hs d'. rewrite blank_rec_closed in Hs.
-  unfold blank_pure in Hs. cbn [andb] in Hs.
-  pose proof (skip_nl_bounds d) as Hi.
-  destruct (zlen d <=? skip_nl d) eqn:Hall.
-  - apply Z.leb_le in Hall. cbn [rec_of] in Hs. injection Hs as <- <-.
-    replace (skip_nl d) with (zlen d) by lia.
-    rewrite (blank_rec_skips st d (skip_nl_all d Hall)).
-    rewrite zdrop_all by lia. reflexivity.
-  - destruct (find_blank (zdrop (skip_nl d) d) (skip_nl d)) as [[en i']|] eqn:Hf; [discriminate|].
-    cbn [rec_of] in Hs. injection Hs as <- <-. rewrite shift_0, zdrop_0. reflexivity.
+  intros H. exact (skips_map unit record bytes fst blank_full blank_rec (to_split_rec_map [] blank_scan) st p
+                     (blank_full_skips st p H)).
 Qed.
 
 Theorem blank_rec_stable : stable unit bytes blank_rec.
-Proof.
-  split; [exact blank_rec_wb| |].
-  - intros st d adv t st' Hs d'. exact (blank_rec_tok d st adv t st' Hs d').
-  - intros st d adv st' Hs d'. exact (blank_rec_more d st adv st' Hs d').
-Qed.
+Proof. exact (stable_map unit record bytes fst blank_full blank_rec (to_split_rec_map [] blank_scan) blank_full_stable). Qed.
 
-(* the records goawk delivers (with RT) project onto the RT-less observation *)
-Lemma to_split_rec_map rs f : forall st d e,
-  to_split_rec f st d e = map_sres unit record bytes fst (to_split rs f st d e).
+(* at EOF, data that starts with a record byte *)
+Lemma blank_rec_head st c x : is_nl c = false ->
+  blank_rec st (c :: x) true =
+    match find_blank (c :: x) 0 with
+    | Some (en, i') => SOk i' (Some (strip_last 13 (ztake en (c :: x)))) st
+    | None => SOk (zlen (c :: x)) (Some (strip_last 13 (strip_last 10 (c :: x)))) st
+    end.
 Proof.
-  intros st d e. unfold to_split_rec, to_split.
-  destruct (f d e) as [[[adv tok] rtw]| | |]; try reflexivity.
-  destruct tok; reflexivity.
+  intros Hc. rewrite blank_rec_closed. unfold blank_pure.
+  cbn [nilb skip_nl negb]. unfold is_nl in Hc. rewrite Hc. rewrite !andb_false_r.
+  rewrite zlen_cons. pose proof (zlen_nonneg x).
+  replace (1 + zlen x <=? 0) with false by (symmetry; apply Z.leb_gt; lia).
+  rewrite zdrop_0. destruct (find_blank (c :: x) 0) as [[en i']|].
+  - rewrite andb_false_r. cbn [rec_of]. rewrite Z.sub_0_r. reflexivity.
+  - reflexivity.
 Qed.
-
-(* ---------- RS = "": RT, whole input at once (guards: no CR, no leading newline) ---------- *)
 
 Lemma wb_of_rec rs f : wb unit bytes (to_split_rec f) -> wb unit record (to_split rs f).
 Proof.
@@ -314,10 +418,7 @@ Proof.
     cbn [map_sres] in Hs. injection Hs as <- Ht <-. destruct t; [discriminate|reflexivity].
 Qed.
 
-Definition blank_full : splitfn unit record := to_split [] blank_scan.
-
-Lemma blank_full_wb : wb unit record blank_full.
-Proof. apply wb_of_rec. exact blank_rec_wb. Qed.
+(* ---------- RS = "": reconstruction of the input from ($0, RT) (input without CR) ---------- *)
 
 Lemma strip_last_notin c d : ~ In c d -> strip_last c d = d.
 Proof.
@@ -379,67 +480,72 @@ Proof.
   - unfold ztake, zdrop. rewrite skipn_firstn_comm. f_equal. lia.
 Qed.
 
-Definition full_of (st : unit) (r : raw) : sres unit record :=
-  match r with
-  | (adv, tok, rtw) => SOk adv (option_map (fun t => (t, match rtw with Some r => r | None => [] end)) tok) st
-  end.
-
-Lemma blank_full_closed st d e : blank_full st d e = full_of st (blank_pure d e).
-Proof.
-  unfold blank_full, to_split. rewrite blank_scan_closed.
-  destruct (blank_pure d e) as [[adv tok] rtw]. reflexivity.
-Qed.
-
-Lemma blank_full_consumes : forall n d, (length d <= n)%nat -> ~ In 13 d -> skip_nl d = 0 ->
+(* what the records and their RT stand for: everything after the leading newlines *)
+Lemma blank_full_consumes : forall n d, (length d <= n)%nat -> ~ In 13 d ->
   forall ts st' b', drainF unit record blank_full true tt d = (ts, DMore st' b') ->
-  concat (map (fun t => fst t ++ snd t) ts) = d.
+  concat (map (fun t => fst t ++ snd t) ts) = zdrop (skip_nl d) d.
 Proof.
-  induction n as [|n IH]; intros d Hlen Hcr Hsk ts st' b' Hd;
+  induction n as [|n IH]; intros d Hlen Hcr ts st' b' Hd;
     rewrite (drainF_wb _ _ _ blank_full_wb) in Hd;
     rewrite blank_full_closed in Hd; unfold blank_pure in Hd.
   - assert (d = []) by (destruct d; [reflexivity|cbn in Hlen; lia]). subst d.
     cbn in Hd. injection Hd as <- _ _. reflexivity.
-  - destruct d as [|c x].
-    { cbn in Hd. injection Hd as <- _ _. reflexivity. }
-    cbn [andb nilb] in Hd. set (d := c :: x) in *. rewrite Hsk in Hd.
-    assert (Hpos : 0 < zlen d) by (unfold d; rewrite zlen_cons; pose proof (zlen_nonneg x); lia).
-    clearbody d.
-    replace (zlen d <=? 0) with false in Hd by (symmetry; apply Z.leb_gt; lia).
-    rewrite zdrop_0 in Hd.
-    destruct (find_blank d 0) as [[en i']|] eqn:Hf.
-    + pose proof (find_blank_bounds _ _ _ _ Hf) as Hb.
-      pose proof (find_blank_rest _ _ _ _ Hf) as Hrest. rewrite Z.sub_0_r in Hrest.
-      cbn [full_of option_map] in Hd. rewrite Z.sub_0_r in Hd.
-      rewrite strip_last_notin in Hd by (intro Hi; apply Hcr; exact (in_ztake _ _ _ Hi)).
+  - pose proof (skip_nl_bounds d) as Hi.
+    destruct (true && nilb d) eqn:Hnil.
+    { cbn [andb] in Hnil. apply nilb_true in Hnil. subst d.
+      cbn [full_of option_map] in Hd. injection Hd as <- _ _. reflexivity. }
+    destruct (zlen d <=? skip_nl d) eqn:Hall.
+    { apply Z.leb_le in Hall. cbn [full_of option_map] in Hd. injection Hd as <- _ _.
+      rewrite zdrop_all by lia. reflexivity. }
+    apply Z.leb_gt in Hall. set (i := skip_nl d) in *.
+    destruct (find_blank (zdrop i d) i) as [[en i']|] eqn:Hf.
+    + pose proof (find_blank_bounds _ _ _ _ Hf) as Hb. rewrite zlen_zdrop in Hb by lia.
+      pose proof (find_blank_rest _ _ _ _ Hf) as Hrest.
+      rewrite <- zdrop_zdrop in Hrest by lia. replace (i + (i' - i)) with i' in Hrest by lia.
+      cbn [negb] in Hd. rewrite andb_false_r in Hd.
+      cbn [full_of option_map] in Hd.
+      rewrite strip_last_notin in Hd
+        by (intro Hx; apply Hcr; exact (in_zdrop _ _ _ (in_ztake _ _ _ Hx))).
       destruct (drainF unit record blank_full true tt (zdrop i' d)) as [ts1 r1] eqn:E1.
       cbn [tcons fst snd] in Hd. injection Hd as <- ->.
       cbn [map concat fst snd].
       rewrite (IH (zdrop i' d)) with (ts := ts1) (st' := st') (b' := b').
-      * rewrite <- ztake_add by lia. replace (en + (i' - en)) with i' by lia. apply ztake_zdrop.
+      * rewrite Hrest, zdrop_0.
+        replace (zdrop en d) with (zdrop (en - i) (zdrop i d))
+          by (rewrite <- zdrop_zdrop by lia; f_equal; lia).
+        replace (zdrop i' d) with (zdrop (i' - i) (zdrop i d))
+          by (rewrite <- zdrop_zdrop by lia; f_equal; lia).
+        rewrite <- ztake_add by lia. replace (en - i + (i' - en)) with (i' - i) by lia.
+        apply ztake_zdrop.
       * assert (length (zdrop i' d) < length d)%nat by (apply length_zdrop_lt; lia). lia.
-      * intro Hi. apply Hcr. exact (in_zdrop _ _ _ Hi).
-      * exact Hrest.
+      * intro Hx. apply Hcr. exact (in_zdrop _ _ _ Hx).
       * exact E1.
     + cbn [full_of option_map] in Hd.
       rewrite (strip_last_notin 13) in Hd
-        by (intro Hi; destruct (strip_last_prefix 10 d) as (s & Hs); apply Hcr; rewrite Hs; apply in_or_app; left; exact Hi).
+        by (intro Hx; destruct (strip_last_prefix 10 (zdrop i d)) as (s & Hs); apply Hcr;
+            apply (in_zdrop _ i); rewrite Hs; apply in_or_app; left; exact Hx).
       rewrite (zdrop_all (zlen d) d) in Hd by lia.
       rewrite (drainF_wb _ _ _ blank_full_wb) in Hd.
       rewrite blank_full_closed in Hd.
       replace (blank_pure [] true) with ((0, None, None) : raw) in Hd by reflexivity.
       cbn [full_of option_map tcons fst snd] in Hd.
       injection Hd as <- _ _. cbn [map concat fst snd]. rewrite app_nil_r.
-      destruct (strip_last_prefix 10 d) as (s & Hs).
-      remember (strip_last 10 d) as t eqn:Ht. clear Ht. subst d.
+      destruct (strip_last_prefix 10 (zdrop i d)) as (s & Hs).
+      pose proof (zlen_nonneg (strip_last 10 (zdrop i d))).
+      rewrite zdrop_zdrop by lia.
+      remember (strip_last 10 (zdrop i d)) as t eqn:Ht. clear Ht. rewrite Hs.
       rewrite zdrop_zlen_app. reflexivity.
 Qed.
 
-(* RS = "", whole input at once, no CR, no leading newline: records with their RT reproduce the input *)
-Theorem blank_reconstruct_partial find data : ~ In 13 data -> skip_nl data = 0 ->
+(* RS = "", whole input at once, no CR: the leading newlines, then each record followed by its
+   RT, reproduce the input *)
+Theorem blank_reconstruct find data : ~ In 13 data ->
+  ztake (skip_nl data) data ++
   concat (map (fun t => fst t ++ snd t) (fst (reference unit record (goawk_split [] find) tt data))) = data.
 Proof.
-  intros Hcr Hsk. unfold reference, finish.
+  intros Hcr. unfold reference, finish.
   change (goawk_split [] find) with blank_full.
   destruct (drainF_wb_more _ _ _ blank_full_wb true tt data) as (ts & st' & b' & E). rewrite E.
-  cbn [fst]. exact (blank_full_consumes (length data) data (le_n _) Hcr Hsk ts st' b' E).
+  cbn [fst]. rewrite (blank_full_consumes (length data) data (le_n _) Hcr ts st' b' E).
+  apply ztake_zdrop.
 Qed.
